@@ -1,18 +1,31 @@
 import RdsModel.Generated
 import RdsSpec.Reference
 /-!
-# RdsSpec.TableCheck — executable cell-by-cell comparison of `Generated.*` with `Reference.*`
+# RdsSpec.TableCheck — executable comparison of `Generated.*` with `Reference.*`
 
-Each `…OkAt` is a closed `Bool` function of the cell address, so that
-* the table theorems of `RdsProofs/TableProofs.lean` are `(List.range n).all …OkAt = true`
-  (`decide +kernel`) lifted to `∀`, and
-* a driver can list the deviating cells of any future `Generated.lean`
-  (`deviations256 g0OkAt`, `eccDeviations`, …).
+Two kinds of functions:
+
+* `…OkAt` — closed `Bool` functions of the cell address, for the driver: `deviations256 g0OkAt`,
+  `eccDeviations eccOkAt`, … list the deviating cells of any future `Generated.lean`;
+* whole-table forms (`g0Expected`, `diffIdx`, `isoClashes`, …) that walk each list once; the
+  theorems of `RdsProofs/TableProofs.lean` evaluate these in the kernel (indexing a 256-element
+  list per cell is quadratic and far too slow there).
 -/
 namespace RDS.TableCheck
 open RDS
 
+/-- indices (counted from `i`) at which the two lists differ; a length mismatch is reported at the
+index where the shorter list ends -/
+def diffIdx {α : Type} [BEq α] : List α → List α → Nat → List Nat
+  | a :: as, b :: bs, i => if a == b then diffIdx as bs (i + 1) else i :: diffIdx as bs (i + 1)
+  | [], [], _ => []
+  | _, _, i => [i]
+
 /-! ### C02 / C20: character tables -/
+
+def storedExpected : List Bool := (List.range 256).map Reference.stored
+def g0Expected : List Nat := (List.range 256).map Reference.g0Value
+def narrowExpected : List Nat := (List.range 256).map Reference.narrowValue
 
 /-- default build, byte `b` (0..255): stored-flag and stored value are as the reference says -/
 def g0OkAt (b : Nat) : Bool :=
@@ -30,7 +43,7 @@ def narrowOkAt (b : Nat) : Bool :=
 def eccCell (row e : Nat) : Nat := (Generated.eccCountry.getD row []).getD e 0
 
 /-- the reference value of the same cell -/
-def eccRef (row e : Nat) : Nat := if row == 0 then 0 else Reference.iec (row - 1) e
+def eccRef (row e : Nat) : Nat := (Reference.iecTable.getD row []).getD e 0
 
 def eccOkAt (row e : Nat) : Bool := eccCell row e == eccRef row e
 
@@ -40,7 +53,16 @@ def eccRangeOkAt (row e : Nat) : Bool := eccCell row e < Generated.countryCount
 /-- "unknown" wherever the standard allocates nothing: PI unknown, nibble 0, ECC not one of the
 23 allocated bytes -/
 def eccUnknownOkAt (row e : Nat) : Bool :=
-  !(row ≤ 1 || !Reference.eccCodes.contains e) || eccCell row e == 0
+  eccCell row e == 0 || (1 < row && Reference.eccCodes.contains e)
+
+/-- whole-table form of `eccRangeOkAt` -/
+def eccRangeOk (t : List (List Nat)) : Bool := t.all (fun r => r.all (fun x => x < Generated.countryCount))
+
+/-- whole-table form of `eccUnknownOkAt`: rows 0 and 1 are zero; elsewhere a non-zero cell sits in
+an allocated ECC column -/
+def eccUnknownOk (t : List (List Nat)) : Bool :=
+  (t.take 2).all (fun r => r.all (· == 0)) &&
+  t.all (fun r => r.zipIdx.all (fun xe => xe.1 == 0 || Reference.eccCodes.contains xe.2))
 
 /-! ### C18: PTY -/
 
@@ -50,17 +72,22 @@ def genPty : Reference.PtyTbl → Bool → List (Option String)
   | .name, true => Generated.ptyNameRbds | .short, true => Generated.ptyShortRbds
   | .long, true => Generated.ptyLongRbds
 
+def ptyExpectedList (t : Reference.PtyTbl) (rbds : Bool) : List (Option String) :=
+  (List.range 256).map (Reference.ptyExpected t rbds)
+
 /-- argument index `a` (argument mod 256: 0..127, then −128..−1) -/
 def ptyOkAt (t : Reference.PtyTbl) (rbds : Bool) (a : Nat) : Bool :=
-  let r := (genPty t rbds).getD a none
-  r.isSome && r == Reference.ptyExpected t rbds a
+  (genPty t rbds).getD a none == Reference.ptyExpected t rbds a
+
+def widthOk (w : Nat) : Option String → Bool
+  | some s => s.length ≤ w
+  | none => false
 
 /-- the text returned for `a` fits the display width of its table -/
 def ptyWidthOkAt (t : Reference.PtyTbl) (rbds : Bool) (a : Nat) : Bool :=
-  match Reference.ptyWidth t, (genPty t rbds).getD a none with
-  | some w, some s => s.length ≤ w
-  | some _, none => false
-  | none, _ => true
+  match Reference.ptyWidth t with
+  | some w => widthOk w ((genPty t rbds).getD a none)
+  | none => true
 
 /-! ### C18: countries -/
 
@@ -69,8 +96,10 @@ def inRange (a : Nat) : Bool := 0 < a && a < Generated.countryCount
 def nameAt (a : Nat) : Option String := Generated.countryName.getD a none
 def isoAt (a : Nat) : Option String := Generated.countryIso.getD a none
 
-def nameOkAt (a : Nat) : Bool :=
-  nameAt a == some (if inRange a then Reference.countryNames.getD a "!!" else "Unknown")
+def namesExpected : List (Option String) := (List.range 256).map Reference.expectedName
+def isoExpected : List (Option String) := (List.range 256).map Reference.expectedIso
+
+def nameOkAt (a : Nat) : Bool := nameAt a == Reference.expectedName a
 
 /-- out of range: `"??"`; in range: the ISO 3166-1 code (per `Reference.iso3166`) of the NAME that
 the name lookup returns for the same argument -/
@@ -81,20 +110,46 @@ def isoOkAt (a : Nat) : Bool :=
     | none => false
   else isoAt a == some "??"
 
+/-- row-wise form: the code of the reference row of enumerator `a` -/
+def isoRowOkAt (a : Nat) : Bool := isoAt a == Reference.expectedIso a
+
+def shapeOk : Option String → Bool
+  | some s => Reference.isoShape s
+  | none => false
+
 /-- in range: two capital letters or `"--"` -/
-def isoShapeOkAt (a : Nat) : Bool :=
-  !inRange a || (match isoAt a with
-    | some s => s.length == 2 && Reference.isoShape s
-    | none => false)
+def isoShapeOkAt (a : Nat) : Bool := !inRange a || shapeOk (isoAt a)
 
-/-- two in-range arguments with the same code other than `"--"` name the same country -/
+/-- numeric code of a lookup result (0: placeholder, malformed or NULL) -/
+def codeOf : Option String → Nat
+  | some s => Reference.isoCode s
+  | none => 0
+
+/-- two in-range arguments with the same proper code name the same country -/
 def isoDistinctOkAt (i j : Nat) : Bool :=
-  !(inRange i && inRange j && isoAt i == isoAt j && isoAt i != some "--") ||
-    (match nameAt i, nameAt j with
-    | some a, some b => Reference.sameCountry a b
-    | _, _ => false)
+  !(inRange i && inRange j && codeOf (isoAt i) != 0 && codeOf (isoAt i) == codeOf (isoAt j)) ||
+    Reference.sameCountry i j
 
-/-! ### deviation lists (for `diagnose` and the `…_deviations` theorems) -/
+/-- `j`s (counted from `j`) in `cs` carrying the proper code `c` of argument `i` without naming the
+same country -/
+def clashesWith (i c : Nat) : List Nat → Nat → List (Nat × Nat)
+  | [], _ => []
+  | d :: ds, j =>
+    if c != 0 && c == d && !Reference.sameCountry i j then (i, j) :: clashesWith i c ds (j + 1)
+    else clashesWith i c ds (j + 1)
+
+/-- all pairs i < j (counted from `i`) of a list of numeric codes that share a proper code without
+naming the same country -/
+def clashes : List Nat → Nat → List (Nat × Nat)
+  | [], _ => []
+  | c :: cs, i => clashesWith i c cs (i + 1) ++ clashes cs (i + 1)
+
+/-- whole-table form of `isoDistinctOkAt` over a table of lookup results: argument 0 and
+arguments ≥ `countryCount` are out of range -/
+def isoClashes (t : List (Option String)) : List (Nat × Nat) :=
+  clashes (((t.take Generated.countryCount).drop 1).map codeOf) 1
+
+/-! ### deviation lists (for `diagnose`) -/
 
 def deviations256 (ok : Nat → Bool) : List Nat := (List.range 256).filter (fun a => !ok a)
 
